@@ -235,6 +235,7 @@ def case_moasha(t):
 
     d = t.int(1, 4)
     metrics = [f"m{i}" for i in range(d)]
+    shuffle_keys = t.bool()
     mode_kind = t.weighted([(2, "min"), (1, "max"), (1, None), (3, "list")])
     if mode_kind == "list":
         mode = [t.choice(["min", "max"]) for _ in range(d)]
@@ -314,9 +315,11 @@ def case_moasha(t):
             vals = [float(t.int(0, 3)) for _ in range(d)]
         else:
             vals = [t.float(-5.0, 5.0) for _ in range(d)]
-        result = {"epoch": it}
-        for m, v in zip(metrics, vals):
-            result[m] = v
+        # a training script reports its metrics in whatever key order it likes, with other keys in between
+        items = [("epoch", it)] + list(zip(metrics, vals)) + [("other", 1.5)]
+        if shuffle_keys:
+            items = t.permutation(items)
+        result = dict(items)
         dec = sched.on_trial_result(trials[tid], dict(result))
         if dec not in ("CONTINUE", "STOP"):
             raise Violation("moasha-illegal-decision", f"{dec!r}")
